@@ -21,7 +21,7 @@ TOL_ULPS = 8
 BOUND = (
     "Bin (num, low, high) in {(10,0,1), (3,0,1), (7,-2.5,4.5), (10,0.1,1.1), (1,0,1), (100,1000,1000.5), (6,-1e6,1e6)}; "
     "SparselyBin (width, origin) in {(1,0), (0.1,0), (1/3,0.5), (0.5,1000.25), (2,-7)} incl. negative indexes; "
-    "CentrallyBin centres {(0,1,2.5), (-3,-1,0.5,10), (1000,1000.5,1001.5)}; IrregularlyBin edges {(0,1,2), (-1.5,0.1,0.3,7), (1000,1000.5)}; "
+    "CentrallyBin centres {(0,1,2.5), (-3,-1,0.5,10), (1000,1000.5,1001.5), (0.1,0.7,1.7,4.9), (1/3,0.7,1e6)}; IrregularlyBin edges {(0,1,2), (-1.5,0.1,0.3,7), (1000,1000.5), (0.1,0.7,1.7,4.9)} (these two classes: exact comparison, no ulp allowance); "
     "probe data = every edge / midpoint, each +-1 ulp, and values outside the domain; sub-ranges = all ordered pairs of those probes "
     "(capped at 400 per configuration); 2-D: Bin x Bin, SparselyBin x SparselyBin, Categorize x Bin, Bin x Categorize on 12 points"
 )
@@ -34,7 +34,12 @@ def ulp(x):
 SCALE = [1.0]  # magnitude of the partition under test (largest finite edge): rounding of edge formulas is relative to it
 
 
+EXACT = [False]  # CentrallyBin / IrregularlyBin compute edges and routing from the same expressions: no tolerance
+
+
 def tol(*xs):
+    if EXACT[0]:
+        return 0.0
     m = max([abs(x) for x in xs if math.isfinite(x)] + [SCALE[0]])
     return TOL_ULPS * math.ulp(m)
 
@@ -112,8 +117,8 @@ def _config(K, cfg):
 CONFIGS = {
     "Bin": [(10, 0.0, 1.0), (3, 0.0, 1.0), (7, -2.5, 4.5), (10, 0.1, 1.1), (1, 0.0, 1.0), (100, 1000.0, 1000.5), (6, -1e6, 1e6)],
     "SparselyBin": [(1.0, 0.0), (0.1, 0.0), (1.0 / 3.0, 0.5), (0.5, 1000.25), (2.0, -7.0)],
-    "CentrallyBin": [(0.0, 1.0, 2.5), (-3.0, -1.0, 0.5, 10.0), (1000.0, 1000.5, 1001.5)],
-    "IrregularlyBin": [(0.0, 1.0, 2.0), (-1.5, 0.1, 0.3, 7.0), (1000.0, 1000.5)],
+    "CentrallyBin": [(0.0, 1.0, 2.5), (-3.0, -1.0, 0.5, 10.0), (1000.0, 1000.5, 1001.5), (0.1, 0.7, 1.7, 4.9), (1.0 / 3.0, 0.7, 1e6)],
+    "IrregularlyBin": [(0.0, 1.0, 2.0), (-1.5, 0.1, 0.3, 7.0), (1000.0, 1000.5), (0.1, 0.7, 1.7, 4.9)],
 }
 
 
@@ -130,6 +135,7 @@ def chk_numeric(K, collect=None):
 def _numeric_config(K, cfg):
     """generator of failure messages for one configuration"""
     mk, grid, probes = _config(K, cfg)
+    EXACT[0] = K in ("CentrallyBin", "IrregularlyBin")
     h = mk()
     # a deterministic fill set: every probe once with weight 1, grid points twice
     for x in probes:
@@ -413,6 +419,7 @@ def replay_model(m):
         return None
     try:
         mk, grid, probes = _config(K, cfg)
+        EXACT[0] = K in ("CentrallyBin", "IrregularlyBin")
         h = mk()
     except Exception as e:
         return None  # the rounded configuration is not constructible: nothing to replay
